@@ -71,4 +71,11 @@ PROPS = {
         note="Address/route source is a fake behind the NewAddresser seam (staged by overlay); clock injected. Stanza variants outside the listed ones and >2 stanzas of a kind are not covered.",
         parts=[part("build", "internal/config", "TestVerifC01", shards={"quick": 4, "thorough": 16})],
     ),
+    "C12": dict(
+        level="exploration", engine="enum",
+        technique="bounded-exhaustive enumeration of (own RA, received RA) pairs over a small value domain per aspect, received side through the wire codec, against a reference list of inconsistencies; on verifyRAs and through Advertiser.handle",
+        text="For each of 11 compared aspects the full product of absent/equal/different values (both directions) is enumerated with the other aspects equal (quick), and for all pairs of aspects the product of both (thorough). The received RA always passes through encode/decode so identity can never stand in for equality. The multiset of (field, details) reported by verifyRAs, the log lines, the inconsistencies_total increments and the hook are compared with a reference computed from the statement.",
+        note="Whole-second lifetimes only (sub-second own lifetimes legitimately differ from their wire form). Hop-limit difference with one side 0 is a don't-care.",
+        parts=[part("pairs", "internal/corerad", "TestVerifC12", shards={"quick": 2, "thorough": 16})],
+    ),
 }
